@@ -1,7 +1,8 @@
 # C20 — MPI requests complete their sender exactly once, after the transfer.
 # PROC runs of the MPI build over the completion modes (with / without a dedicated polling pool),
 # the error-status path, a trace-check of the real poller (hooks 2001..2010) against the extracted
-# model, the transform_mpi route model as compiled (translator flag), compaction DIFF.
+# model, the same for poll_singlethreaded (hooks 2001/2002/2009/2011, dedicated pool), the transform_mpi route
+# model as compiled (translator flag), compaction DIFF.
 import random
 
 from vlib import Hit, Result, diff_lines, sh
@@ -12,7 +13,12 @@ ASSUMPTIONS = [
     'moodycamel ConcurrentQueue is a concurrent bag (try_dequeue returns any element or, spuriously, nothing)',
     'sequentially consistent interleaving at the granularity of one atomic access / one lock-protected block; the lock scope of poll_multithreaded is split into drain / test-report / compact+unlock steps',
     'callbacks are identified with the request they were registered with (ghost); the body of a callback is covered by the transform_mpi route model (PART B), composed through the contract "invoked at most once, after a test"',
-    'poll_singlethreaded (dedicated pool + non-inline requests) and the mpix_continuation method are exercised by the PROC runs only (not modelled / not compiled)',
+    'poll_singlethreaded (PART D): ONE OS thread runs the poller and every registration (dedicated pool with one worker, non-inline requests are transferred to it) '
+    '- checked on every run by the second-thread monitors of STRACE and PROC; no callback registers a request inline (no_inline_add) - true of the callbacks transform_mpi '
+    'registers (they resume a suspended task / schedule a task / signal the downstream receiver, whose own transform_mpi transfers to the pool first), checked by the '
+    'inline-add monitor of PROC with operations chained from inside continuations; the single-threaded model applied to a polling pool with several workers is NOT sound '
+    '(C20_single_second_thread_compacts)',
+    'the mpix_continuation method is not compiled',
     'liveness (some worker keeps calling the polling function) is assumed, not proved',
 ]
 
@@ -28,13 +34,66 @@ def fields(line, skip):
     return dict(x.split('=', 1) for x in line.split(' ')[skip:] if '=' in x)
 
 
+def single_monitors(tokens):
+    """the property evaluated on the observations of the real poll_singlethreaded (independent of the model):
+    callback at most once, only after Testany reported the request, only after MPI completed it; the counter at
+    quiescent checkpoints; one OS thread; nothing touches the vectors while a callback runs in place"""
+    out = []
+    threads, done, tested, called = set(), set(), set(), set()
+    nreg = ntest = 0
+    in_cb = None
+    for i, tok in enumerate(tokens):
+        p = tok.split(',')
+        k = p[0]
+        if k in ('E', 'V', 'S', 'R', 'C', 'X'):
+            threads.add(p[1])
+        if k == 'E':
+            nreg += 1
+            if p[3] != '1':
+                out.append(('C20:strace:mode', 'registration %s took the queue branch: single_thread_mode_ is off' % tok))
+            if in_cb is not None:
+                out.append(('C20:strace:vector_modified_in_callback', 'request %s registered (token %d) while the callback of %s runs in place' % (p[2], i, in_cb)))
+        elif k == 'V':
+            if in_cb is not None:
+                out.append(('C20:strace:vector_modified_in_callback', 'push_back (token %d %s) while the callback of %s runs in place' % (i, tok, in_cb)))
+        elif k == 'D':
+            done.add(p[1])
+        elif k == 'S':
+            if p[3] not in done:
+                out.append(('C20:strace:test_before_completion', 'Testany reported request %s (token %d) before MPI completed it' % (p[3], i)))
+            if p[3] in tested:
+                out.append(('C20:strace:callback_twice', 'request %s reported twice by Testany (token %d)' % (p[3], i)))
+            tested.add(p[3])
+            ntest += 1
+        elif k == 'B':
+            if p[1] in called:
+                out.append(('C20:strace:callback_twice', 'callback of request %s invoked twice (token %d)' % (p[1], i)))
+            if p[1] not in tested or p[1] not in done:
+                out.append(('C20:strace:callback_before_completion', 'callback of request %s invoked (token %d) before its test/completion' % (p[1], i)))
+            called.add(p[1])
+            in_cb = p[1]
+        elif k == 'R':
+            in_cb = None
+        elif k == 'C':
+            if in_cb is not None:
+                out.append(('C20:strace:vector_modified_in_callback', 'compact_vectors (token %d) while the callback of %s runs in place' % (i, in_cb)))
+        elif k == 'K':
+            if int(p[1]) != nreg - ntest:
+                out.append(('C20:strace:counter', 'all_in_flight=%s at a quiescent checkpoint with %d registered and %d reported complete' % (p[1], nreg, ntest)))
+            if int(p[2]) != len(called):
+                out.append(('C20:strace:counter', 'callback count %s differs from the %d callbacks observed' % (p[2], len(called))))
+    if len(threads) > 1:
+        out.append(('C20:strace:second_thread', 'OS threads %s ran the single-threaded poller / its registrations' % sorted(threads)))
+    return out, len(threads)
+
+
 def run(ctx):
     r = Result()
     r.rule = ('PROC: one process per (completion mode, pool) pair: N self-addressed Irecv/Isend pairs (1..70000 ints, patterned payload) '
               'through transform_mpi with counting receivers, started from concurrent tasks in seeded random order; a third of the pairs is '
               '"gated" (the send is issued 40 ms later by another thread); pika::wait() is called while they are in flight. '
               'ERR: MPI_ERRORS_RETURN + MPI_DATATYPE_NULL. TRACE: generalized requests completed by the harness, hook trace replayed by the '
-              'extracted model step by step. TM/CMP: seeded event sequences / slot vectors on the extracted model. '
+              'extracted model step by step; STRACE: the same for poll_singlethreaded (dedicated pool, registrations as tasks on the pool). TM/CMP: seeded event sequences / slot vectors on the extracted model. '
               'A case is non-trivial when requests were really registered with the poller or (TRACE) when at least two threads touched the poller; '
               'distinct = distinct IN lines')
     rnd = random.Random(ctx.seed * 1000003 + 20)
@@ -85,9 +144,29 @@ def run(ctx):
                                   '(signalled before MPI completed the request)' % (tag, f['premature']), rep))
             if int(f['badsum']) > 0:
                 r.hits.append(Hit('monitor', 'C20:proc:payload', 'PROC %s: %s receive continuations saw an incomplete payload' % (tag, f['badsum']), rep))
-            if int(f['done_at_wait']) != 2 * npairs:
+            total = int(f.get('total', 2 * npairs))
+            if int(f['done_at_wait']) != total:
                 r.hits.append(Hit('monitor', 'C20:proc:wait_returned_early', 'PROC %s: pika::wait() returned with %s of %d continuations run '
-                                  '(gated sends issued: %s of %s)' % (tag, f['done_at_wait'], 2 * npairs, f['issued_at_wait'], f['gated']), rep))
+                                  '(gated sends issued: %s of %s)' % (tag, f['done_at_wait'], total, f['issued_at_wait'], f['gated']), rep))
+            if int(f.get('chain_bad', 0)) > 0:
+                r.hits.append(Hit('monitor', 'C20:proc:payload', 'PROC %s: %s chained receives saw a wrong payload' % (tag, f['chain_bad']), rep))
+            # poll_singlethreaded as the real runs use it: hypotheses of the PART D theorems
+            single = bool(pool) and (mode & 1) == 0 and (mode & 56) != 0
+            if int(f.get('st_inline_add', 0)) > 0:
+                r.hits.append(Hit('monitor', 'C20:proc:inline_add_in_callback', 'PROC %s: %s registrations happened between a Testany hit and the return of its callback '
+                                  '(the vector is modified while callbacks_[i].cb_ runs in place)' % (tag, f['st_inline_add']), rep))
+            if int(f.get('st_threads', 0)) > 1:
+                r.hits.append(Hit('monitor', 'C20:proc:single_poller_threads', 'PROC %s: %s OS threads touched the single-threaded poller' % (tag, f['st_threads']), rep))
+            if single and (int(f.get('st_reg', 0)) == 0 or int(f.get('st_hits', 0)) == 0):
+                r.hits.append(Hit('tie', 'C20:proc:single_not_exercised', 'PROC %s: pool + non-inline requests but poll_singlethreaded saw %s registrations / %s completions'
+                                  % (tag, f.get('st_reg'), f.get('st_hits')), rep))
+            if single and (mode & 56) == 24 and (mode & 2) and int(f.get('chain_in_cb', 0)) == 0:
+                r.hits.append(Hit('tie', 'C20:proc:chain_not_in_callback', 'PROC %s: no chained operation was started from inside a running callback '
+                                  '(the no_inline_add hypothesis was not exercised)' % tag, rep))
+            if single:
+                r.count('proc:single_threaded_poller')
+                r.extra['chain_started_in_callback'] = r.extra.get('chain_started_in_callback', 0) + int(f.get('chain_in_cb', 0))
+                r.extra['single_hits'] = r.extra.get('single_hits', 0) + int(f.get('st_hits', 0))
             if int(f['work_after']) != 0:
                 r.hits.append(Hit('monitor', 'C20:proc:work_count', 'PROC %s: get_work_count() = %s after everything completed' % (tag, f['work_after']), rep))
             if not any('shutdown=ok' in x for x in lines):
@@ -176,6 +255,55 @@ def run(ctx):
                           {'harness': 'c20_mpi', 'case': inmap.get(k[1], '')[:6000], 'impl': a, 'model': b}))
     if ins:
         r.sample({'trace_in': ins[0][:400], 'trace_out': outs[0][:200]})
+
+    # ------------------------------------------------------------ STRACE: poll_singlethreaded against the extracted model
+    sins, souts = [], []
+    smodes = [30, 18] if quick else [30, 18, 8, 26, 20]
+    sncases = 60 if quick else 400
+    for i, mode in enumerate(smodes):
+        args = [h, 'strace', str(mode), str(sncases), str(ctx.seed * 10 + i)]
+        rc, out = sh(args, timeout=400, env=env)
+        li = [x for x in out.split('\n') if x.startswith('IN STRACE')]
+        lo = [x for x in out.split('\n') if x.startswith('OUT STRACE')]
+        rep = {'harness': 'c20_mpi', 'args': args[1:], 'tail': out[-1500:]}
+        li = [x.replace('IN STRACE ', 'IN STRACE %d.' % mode, 1) for x in li]
+        lo = [x.replace('OUT STRACE ', 'OUT STRACE %d.' % mode, 1) for x in lo]
+        if any('hang=1' in x for x in lo) or rc in (4, 124):
+            r.hits.append(Hit('monitor', 'C20:strace:lost_callback', 'STRACE mode %d: a completed request was never called back / counter did not return to zero: %s'
+                              % (mode, ' | '.join(lo[-2:])[-500:]), dict(rep, case=li[-1][:3000] if li else None)))
+        elif rc != 0:
+            r.hits.append(Hit('monitor', 'C20:strace:crash', 'STRACE mode %d: harness failed rc=%d %s' % (mode, rc, out[-400:]), rep))
+        lo = [x for x in lo if 'hang=1' not in x]
+        for a, b in zip(li, lo):
+            f = fields(b, 3)
+            if int(f.get('dup', 0)) > 0:
+                r.hits.append(Hit('monitor', 'C20:strace:callback_twice', 'a request callback was invoked twice: %s' % b[:300], dict(rep, case=a[:3000])))
+            if int(f.get('lost', 0)) > 0:
+                r.hits.append(Hit('monitor', 'C20:strace:lost_callback', 'a completed request was never called back: %s' % b[:300], dict(rep, case=a[:3000])))
+            if int(f.get('inflight', 0)) != 0:
+                r.hits.append(Hit('monitor', 'C20:strace:counter', 'all_in_flight is %s after all callbacks ran: %s' % (f['inflight'], b[:200]), dict(rep, case=a[:3000])))
+            toks = a.split(' ')[5:]
+            mh, nthr = single_monitors(toks)
+            for sig, detail in mh[:3]:
+                r.hits.append(Hit('monitor', sig, 'poll_singlethreaded (case %s): %s' % (a.split(' ')[2], detail), dict(rep, case=a[:3000])))
+            r.count('strace:threads=%d' % nthr)
+            if sum(1 for t in toks if t[0] == 'S') >= 2 and any(t[0] == 'C' for t in toks):
+                r.nontrivial(a)
+        sins += li[:len(lo)]
+        souts += lo
+    rc2, mout = sh([drv], input='\n'.join(sins) + '\n', timeout=1200)
+    mouts = [x for x in mout.split('\n') if x.startswith('OUT STRACE')]
+    diffs, n = diff_lines(ctx, souts, mouts)
+    r.evaluations += n
+    r.traces += n - len(diffs)
+    inmap = {x.split(' ')[2]: x for x in sins}
+    for (k, a, b) in diffs[:10]:
+        r.hits.append(Hit('corr', 'C20:strace:correspondence', 'trace of poll_singlethreaded is not a run of the model (case %s): impl [%s] model [%s]' % (k[1], a[:300], b[:300]),
+                          {'harness': 'c20_mpi', 'case': inmap.get(k[1], '')[:6000], 'impl': a, 'model': b}))
+    if not sins:
+        r.hits.append(Hit('tie', 'C20:strace:empty', 'the single-threaded trace run produced no case', {'modes': smodes}))
+    else:
+        r.sample({'strace_in': sins[0][:400], 'strace_out': souts[0][:200]})
 
     # ------------------------------------------------------------ TM: the transform_mpi route model as compiled
     tin = []
